@@ -253,6 +253,23 @@ def discharge(ob, timeout_ms=10000, use_cvc5=True, extract=None, max_models=1, c
                 r.smt2 = smt2[:4000]
                 r.ms = (time.time() - t0) * 1000
                 return r
+        if res == z3.unsat and getattr(ob, "uses_rec", False):
+            # Queries over recursive specification functions: z3 was seen to answer `unsat` on a satisfiable query of this
+            # kind (sequence theory + recursive definitions; a fresh process with another random seed answers `unknown`,
+            # cvc5 cannot read z3's printing of the definitions).  A proof is accepted only if two more runs with other
+            # seeds agree; otherwise the obligation is undecided.
+            agree = True
+            for seed in (7, 99):
+                s2 = _mk_solver(assumptions, goal, timeout_ms)
+                s2.set("random_seed", seed)
+                r2 = s2.check()
+                if r2 != z3.unsat:
+                    agree = False
+                    break
+            if not agree:
+                status = "undecided"
+                r.note = "z3 proves this query over a recursive specification function only for some random seeds (%s)" % note
+                continue
         if res == z3.unsat:
             if cross_check and r.backend == "z3":
                 # second opinion on a z3 proof: the same query, printed as SMT-LIB, decided by cvc5.  `sat` there is a
